@@ -46,7 +46,37 @@ def specs(ctx):
     return out
 
 
+def apalache_inductive(ctx):
+    """C04 budget clause for unbounded maxiter/maxfun/maxls: inductive invariant of Counters.tla (Apalache)."""
+    import shutil
+    import subprocess
+
+    out = {"tool": "apalache-mc", "obligations": 2, "discharged": 0, "detail": []}
+    exe = shutil.which("apalache-mc")
+    if exe is None:
+        out["detail"].append("apalache-mc not found: skipped")
+        ctx.cov["apalache_counters"] = out
+        return
+    for name, args in (("Init => IndInv", ["--init=Init", "--inv=IndInv", "--length=0"]),
+                       ("IndInv /\\ Next => IndInv'", ["--init=IndInit", "--inv=IndInv", "--length=1"])):
+        d = ctx.tmp / ("apa-" + str(len(out["detail"])))
+        try:
+            from harness.common import SPEC
+            p = subprocess.run([exe, "check", *args, f"--out-dir={d}", str(SPEC / "Counters.tla")],
+                               capture_output=True, text=True, timeout=600, cwd=ctx.tmp)
+            ok = "The outcome is: NoError" in p.stdout
+            out["detail"].append({"obligation": name, "ok": ok})
+            out["discharged"] += int(ok)
+            if not ok and "outcome is: Error" in p.stdout:
+                from harness.common import Machinery
+                raise Machinery("Counters.tla: inductive invariant refuted by Apalache - specification bug:\n" + p.stdout[-1500:])
+        except subprocess.TimeoutExpired:
+            out["detail"].append({"obligation": name, "ok": False, "note": "timeout: dropped"})
+    ctx.cov["apalache_counters"] = out
+
+
 def run(ctx):
+    apalache_inductive(ctx)
     drivercheck.design(ctx, wide=True, restart=True)
     drivercheck.run_traces(ctx, specs(ctx), PREFIX)
     return ctx.finish("model_checking", RULE)
